@@ -312,7 +312,7 @@ def check_c20(tier):
             rep.violation(key, desc, {"component": "cli", "event_case": c["case"], "kind": c["kind"], "why": w})
     for e in events[:2] + events[-1:]:
         rep.sample({k: (v if not isinstance(v, list) or len(json.dumps(v)) < 160 else "<%d items>" % len(v)) for k, v in e.items() if k != "stderr"})
-    good = [e for e in events if e["kind"] == "dirbundle" and e["gen_exit"] == 0 and e["sign"] == "none"][0]
+    good = [e for e in events if e["case"] not in rep.rejected_ids and e["kind"] == "dirbundle" and e["gen_exit"] == 0 and e["sign"] == "none"][0]
     b1 = json.loads(json.dumps(good)); b1["case"] = "neg1"; b1["files"][0]["body"] = b1["files"][0]["body"] + [33]
     b2 = json.loads(json.dumps(good)); b2["case"] = "neg2"; b2["dump_exit"] = 1
     np_ = os.path.join(wd, "neg.ndjson")
